@@ -883,3 +883,215 @@ func c12R11(ic *IC, r *Report) {
 		r.Errorf("R12.11: only %d bounded callers of typecheck.index found (index expression, array literal, slice expression expected)", n)
 	}
 }
+
+func init() {
+	ruleText["R12.12"] = "= R03.4 / R03.8 shared: the representability function bounds signed kinds with width-1 bits and rounds a floating-point constant with the accessor of the target's own width (an out-of-range constant is a static error of the class C12 lists)"
+	ruleText["R12.13"] = "in (*itype).convertibleTo no shortcut accepts a conversion because of the operands' kinds when neither is unsafe.Pointer: evaluated three-valued for (pointer, pointer), (pointer, uintptr) and (uintptr, pointer), no condition guarding a 'return true' is definitely true"
+}
+
+// c12R13: conversions between unrelated pointer types, and between pointers and uintptr, need
+// unsafe.Pointer. Round-5 seed: isPointerKind(tt.Kind()) && isPointerKind(ot.Kind()).
+func c12R13(ic *IC, r *Report) {
+	info := ic.Info
+	fi := ic.fn(r, "itype.convertibleTo")
+	if fi == nil {
+		return
+	}
+	// the reflect types of the receiver and of the operand: locals assigned from X.TypeOf()
+	recv := ic.Info.ObjectOf(fi.Decl.Recv.List[0].Names[0])
+	var param types.Object
+	if len(fi.Decl.Type.Params.List) == 1 && len(fi.Decl.Type.Params.List[0].Names) == 1 {
+		param = info.ObjectOf(fi.Decl.Type.Params.List[0].Names[0])
+	}
+	side := map[types.Object]int{} // local -> 0 (receiver) / 1 (operand)
+	ast.Inspect(fi.Decl.Body, func(m ast.Node) bool {
+		as, ok := m.(*ast.AssignStmt)
+		if !ok || len(as.Lhs) != len(as.Rhs) {
+			return true
+		}
+		for i, rhs := range as.Rhs {
+			c, ok := unparen(rhs).(*ast.CallExpr)
+			if !ok {
+				continue
+			}
+			se, ok := c.Fun.(*ast.SelectorExpr)
+			if !ok || se.Sel.Name != "TypeOf" {
+				continue
+			}
+			if id := identOf(se.X); id != nil {
+				if lid := identOf(as.Lhs[i]); lid != nil {
+					switch info.ObjectOf(id) {
+					case recv:
+						side[info.ObjectOf(lid)] = 0
+					case param:
+						side[info.ObjectOf(lid)] = 1
+					}
+				}
+			}
+		}
+		return true
+	})
+	// kindOf(e): which side's Kind() e denotes: X.Kind() with X a side local, or t.TypeOf().Kind()
+	kindSide := func(e ast.Expr) int {
+		c, ok := unparen(e).(*ast.CallExpr)
+		if !ok {
+			return -1
+		}
+		se, ok := c.Fun.(*ast.SelectorExpr)
+		if !ok || se.Sel.Name != "Kind" {
+			return -1
+		}
+		if id := identOf(se.X); id != nil {
+			if s, ok := side[info.ObjectOf(id)]; ok {
+				return s
+			}
+		}
+		if inner, ok := unparen(se.X).(*ast.CallExpr); ok {
+			if ise, ok := inner.Fun.(*ast.SelectorExpr); ok && ise.Sel.Name == "TypeOf" {
+				if id := identOf(ise.X); id != nil {
+					switch info.ObjectOf(id) {
+					case recv:
+						return 0
+					case param:
+						return 1
+					}
+				}
+			}
+		}
+		return -1
+	}
+	kindName := func(e ast.Expr) string {
+		if se, ok := unparen(e).(*ast.SelectorExpr); ok {
+			if id := identOf(se.X); id != nil && id.Name == "reflect" {
+				return se.Sel.Name
+			}
+		}
+		return ""
+	}
+	scenarios := [][2]string{{"Ptr", "Ptr"}, {"Ptr", "Uintptr"}, {"Uintptr", "Ptr"}}
+	nIf := 0
+	for _, sc := range scenarios {
+		var atom func(e ast.Expr) int
+		atomWith := func(bind map[types.Object]string) func(e ast.Expr) int {
+			return func(e ast.Expr) int {
+				switch x := e.(type) {
+				case *ast.BinaryExpr:
+					if x.Op != token.EQL && x.Op != token.NEQ {
+						return triUnknown
+					}
+					for _, pr := range [][2]ast.Expr{{x.X, x.Y}, {x.Y, x.X}} {
+						k := kindName(pr[1])
+						if k == "" {
+							continue
+						}
+						have := ""
+						if s := kindSide(pr[0]); s >= 0 {
+							have = sc[s]
+						} else if id := identOf(pr[0]); id != nil && bind != nil {
+							have = bind[info.ObjectOf(id)]
+						}
+						if have == "" {
+							continue
+						}
+						res := triFalse
+						if have == k {
+							res = triTrue
+						}
+						if x.Op == token.NEQ {
+							res = 1 - res
+						}
+						return res
+					}
+				case *ast.CallExpr:
+					// boolean helper applied to kinds: inline with its parameters bound
+					f, ok := calleeOf(info, x).(*types.Func)
+					if !ok || f.Pkg() != ic.Pk.Types {
+						return triUnknown
+					}
+					hd := ic.G.Funcs[f]
+					if hd == nil || hd.Decl.Body == nil || hd.Decl.Recv != nil {
+						return triUnknown
+					}
+					b := map[types.Object]string{}
+					pi := 0
+					for _, fl := range hd.Decl.Type.Params.List {
+						for _, pn := range fl.Names {
+							if pi < len(x.Args) {
+								if s := kindSide(x.Args[pi]); s >= 0 {
+									b[info.ObjectOf(pn)] = sc[s]
+								}
+							}
+							pi++
+						}
+					}
+					if len(b) == 0 {
+						return triUnknown
+					}
+					inner := func(e ast.Expr) int { return triUnknown }
+					_ = inner
+					sub := func(bind map[types.Object]string) func(ast.Expr) int { return nil }
+					_ = sub
+					return evalBoolFunc(hd.Decl.Body, func(e2 ast.Expr) int {
+						if be, ok := e2.(*ast.BinaryExpr); ok && (be.Op == token.EQL || be.Op == token.NEQ) {
+							for _, pr := range [][2]ast.Expr{{be.X, be.Y}, {be.Y, be.X}} {
+								k := kindName(pr[1])
+								id := identOf(pr[0])
+								if k == "" || id == nil || b[info.ObjectOf(id)] == "" {
+									continue
+								}
+								res := triFalse
+								if b[info.ObjectOf(id)] == k {
+									res = triTrue
+								}
+								if be.Op == token.NEQ {
+									res = 1 - res
+								}
+								return res
+							}
+						}
+						return triUnknown
+					})
+				}
+				return triUnknown
+			}
+		}
+		atom = atomWith(nil)
+		ast.Inspect(fi.Decl.Body, func(m ast.Node) bool {
+			ifs, ok := m.(*ast.IfStmt)
+			if !ok {
+				return true
+			}
+			returnsTrue := false
+			for _, s := range ifs.Body.List {
+				if rs, ok := s.(*ast.ReturnStmt); ok && len(rs.Results) == 1 {
+					if id := identOf(rs.Results[0]); id != nil && id.Name == "true" {
+						returnsTrue = true
+					}
+				}
+			}
+			if !returnsTrue {
+				return true
+			}
+			nIf++
+			v := evalCond(ifs.Cond, atom)
+			if v == triTrue {
+				r.Fail("R12.13", fmt.Sprintf("itype.convertibleTo/accepts:%s->%s", sc[0], sc[1]), ic.pos(ifs.Pos()),
+					fmt.Sprintf("(*itype).convertibleTo returns true under %s, which holds for every conversion from a %s type to a %s type: *T(p) for unrelated pointer types, uintptr(p) and (*T)(u) are accepted without unsafe.Pointer and executed", types.ExprString(ifs.Cond), strings.ToLower(sc[0]), strings.ToLower(sc[1])))
+			}
+			return true
+		})
+	}
+	if nIf == 0 {
+		r.Errorf("R12.13: no conditional 'return true' found in (*itype).convertibleTo")
+		return
+	}
+	failed := false
+	for _, o := range r.Obls {
+		if o.Rule == "R12.13" && !o.OK {
+			failed = true
+		}
+	}
+	if !failed {
+		r.Pass("R12.13", "itype.convertibleTo/no-kind-shortcut-without-unsafe.Pointer", ic.pos(fi.Decl.Pos()), fmt.Sprintf("%d guarded acceptances evaluated under 3 kind scenarios", nIf/len(scenarios)))
+	}
+}
